@@ -6,7 +6,7 @@ package radius
 // transport) against a loopback UDP accounting server that decodes every Accounting-Request.
 //
 // case line:   W <rec> <rec> ...      rec = <S|I|E>,<in-octets>,<out-octets>,<in-packets>,<out-packets>
-// output:      per record  <status 40>:<42>:<43>:<52 or ->:<53 or ->:<47>:<48>   then " ; mono=<0|1>": the
+// output:      per record  <status 40>:<42>:<43>:<52, 0 when absent>:<53, 0 when absent>:<47>:<48>   then " ; mono=<0|1>": the
 //              monotone monitor run on the 64-bit values the server reconstructs (Gigawords<<32 | Octets).
 
 import (
@@ -103,7 +103,10 @@ func vf09wRun(p *Provider, srv *vf09wServer, line string) (res string) {
 	}
 	for i := range seen {
 		r := &seen[i]
-		toks = append(toks, strings.Join([]string{opt(r, 40), opt(r, 42), opt(r, 43), opt(r, 52), opt(r, 53), opt(r, 47), opt(r, 48)}, ":"))
+		// Gigawords: an absent attribute and a present one with value 0 mean the same to an accounting server (RFC 2869);
+		// which of the two the encoder chooses is not constrained by the property
+		giga := func(t int) string { return strconv.FormatUint(uint64(r.val[t]), 10) }
+		toks = append(toks, strings.Join([]string{opt(r, 40), opt(r, 42), opt(r, 43), giga(52), giga(53), opt(r, 47), opt(r, 48)}, ":"))
 		// what a RADIUS accounting server reconstructs (RFC 2869)
 		dec := [4]uint64{uint64(r.val[52])<<32 | uint64(r.val[42]), uint64(r.val[53])<<32 | uint64(r.val[43]), uint64(r.val[47]), uint64(r.val[48])}
 		ge := dec[0] >= prev[0] && dec[1] >= prev[1] && dec[2] >= prev[2] && dec[3] >= prev[3]
